@@ -113,7 +113,7 @@ func (DirInfo) IsDir() bool        { return true }
 func (DirInfo) Sys() interface{}   { return nil }
 
 // ExitCode runs f and returns the status it passes to os.Exit (-1 if it
-// returns).  gosym only: natively os.Exit cannot be intercepted, C20
+// returns; 0 if f returns normally).  gosym only: natively os.Exit cannot be intercepted, C20
 // counterexamples are replayed by running the built binary instead.
 func ExitCode(f func()) int {
 	AssumeFailed = true
